@@ -279,7 +279,7 @@ def drive_and_validate(cases, wdir, tag, chunks=None, batch=40000):
                     crashes[cid] = e.get("why", "?")
                 elif cid in want:
                     samples[cid] = e
-        b, t, r = vlib.validate_traces("Preproc_Trace", "Preproc_Trace.cfg", execs, wdir, "%s.%d" % (tag, b0), chunks=chunks, timeout_s=3000, xmx="4g")
+        b, t, r = vlib.validate_traces("Preproc_Trace", "Preproc_Trace.cfg", execs, wdir, "%s.%d" % (tag, b0), chunks=chunks, timeout_s=3000, xmx="4g -Xss256m")
         bad += b
         results += r
         totals["lines"] += t["lines"]
